@@ -845,14 +845,21 @@ pub fn run(started: Instant) -> i32 {
     let queue: std::sync::Mutex<Vec<(usize, usize)>> = std::sync::Mutex::new((0..total).step_by(chunk).map(|s| (s, (s + chunk).min(total))).rev().collect());
     let merged: std::sync::Mutex<Report> = std::sync::Mutex::new(Report::new());
     let machinery_fail = std::sync::atomic::AtomicBool::new(false);
+    // every death costs up to a watchdog period: once MAX_DEATHS inputs have killed or hung their worker the
+    // verdict is settled and the remaining ranges are dropped (recorded as a cap)
+    const MAX_DEATHS: usize = 8;
+    let deaths = std::sync::atomic::AtomicUsize::new(0);
     let exe = std::env::current_exe().expect("exe");
     let threads = infra::ctx().threads.max(1);
     std::thread::scope(|s| {
         for _ in 0..threads {
             s.spawn(|| {
                 loop {
+                    if deaths.load(std::sync::atomic::Ordering::SeqCst) >= MAX_DEATHS {
+                        break;
+                    }
                     let Some((mut a, e)) = queue.lock().unwrap().pop() else { break };
-                    while a < e {
+                    while a < e && deaths.load(std::sync::atomic::Ordering::SeqCst) < MAX_DEATHS {
                         let mut child = match Command::new(&exe)
                             .arg("C08")
                             .arg("--tier")
@@ -911,6 +918,7 @@ pub fn run(started: Instant) -> i32 {
                             weight: (ms.len() * 1_000_000 + bytes.len()) as u64,
                         });
                         merged.lock().unwrap().merge(r);
+                        deaths.fetch_add(1, std::sync::atomic::Ordering::SeqCst);
                         a = idx + 1;
                     }
                 }
@@ -921,6 +929,10 @@ pub fn run(started: Instant) -> i32 {
         return 2;
     }
     let mut rep = merged.into_inner().unwrap();
+    if deaths.load(std::sync::atomic::Ordering::SeqCst) >= MAX_DEATHS {
+        let left = queue.lock().unwrap().len();
+        rep.caps_hit.push(format!("exploration stopped after {MAX_DEATHS} inputs killed or hung their worker process ({left} ranges of {chunk} inputs not started); each is reported as a violation"));
+    }
     for b in bases.iter().take(3) {
         rep.sample(json!({"base": b.label, "archive_len": b.archive.len(), "inner_stream_len": b.l2.len(), "mutation_sets": mutation_sets(b, 0, thorough).len()}));
     }
